@@ -135,6 +135,10 @@ def cterm(c):
 def ceq(a, b):
     """equality of two characters -> python bool or z3 Bool term, pruned by
     the domains"""
+    if isinstance(a, DecStr) or isinstance(b, DecStr):
+        if isinstance(a, DecStr) and isinstance(b, DecStr):
+            return z3.simplify(a.t == b.t)
+        raise Unsupported('decimal atom compared with a character')
     sa, sb = is_sym(a), is_sym(b)
     if not sa and not sb:
         return a == b
@@ -206,8 +210,6 @@ def lift(s):
             j = s.index(TOK_Z, i)
             obj = toks[int(s[i + 1:j])]
             if isinstance(obj, DecStr):
-                if len(s) == j + 1 and i == 0:
-                    return obj
                 out.append(obj)       # kept as an atom
             else:
                 out.extend(obj.c)
@@ -220,6 +222,10 @@ def lift(s):
 
 def has_token(s):
     return isinstance(s, str) and TOK_A in s
+
+
+class TokStr(str):
+    """real str carrying a placeholder token (see DESIGN 3.2)"""
 
 
 def tokenize(obj):
@@ -235,7 +241,7 @@ def tokenize(obj):
         E._tok_pc = E.pc
     n = len(E.tokens)
     E.tokens[n] = obj
-    return '%s%d%s' % (TOK_A, n, TOK_Z)
+    return TokStr('%s%d%s' % (TOK_A, n, TOK_Z))
 
 
 class SymStr:
@@ -657,6 +663,8 @@ class DecStr:
             return z3.simplify(self.t == o.t)
         if isinstance(o, (str, SymStr)):
             o = tosym(o)
+            if len(o.c) == 1 and isinstance(o.c[0], DecStr):
+                return z3.simplify(self.t == o.c[0].t)
             v = canonical_decimal(o)
             if v is None:
                 return False
@@ -729,6 +737,8 @@ def parse_int(s):
     between digits.  Forks per character class; raises ValueError."""
     if isinstance(s, DecStr):
         return wrapint(s.t)
+    if len(s.c) == 1 and isinstance(s.c[0], DecStr):
+        return wrapint(s.c[0].t)
     c = s.strip().c
 
     def bad():
